@@ -489,10 +489,8 @@ theorem C10_gen_shape :
     Gen.Reward.agentRewardPlumbing = true ∧ Gen.Reward.setupRewardSharingShape = true := by
   decide
 
-/-- the two graph functions of science.py are text-identical to the shapes Model/RewardGraph.lean transcribes (their semantic
-tie is the bounded-exhaustive differential of the rig: every graph on ≤ 4 nodes, self-loops and repeated neighbours included) -/
-theorem C10_gen_shape_graph : Gen.Reward.topoSortIsPostOrder = true ∧ Gen.Reward.cycleSearchShape = true := by
-  decide
+/-! The two graph functions of science.py are no longer text-pinned: they are translated statement by statement and proved equal to
+`topoSort` / `hasCycle` for every graph in Props/C10Graph.lean (`C10_gen_topological_sort`, `C10_gen_graph_has_cycle`). -/
 
 /-- a component whose configuration omits `weight` is registered with the model's default, and `RewardFunction.__init__`
 passes the configured weight to `register_component` unchanged -/
